@@ -1,5 +1,5 @@
 (* C11 - Encoding is deterministic and read-only. *)
-From MQ Require Import Model.Render Proofs.BytesP Proofs.RenderP.
+From MQ Require Import Model.Render Proofs.BytesP Proofs.RenderP Model.ReadOnlyApi gen.GenEffects gen.SyncEffects.
 From Coq Require Import List Permutation Lia. Import ListNotations. Open Scope N_scope.
 
 (* In the model every operation of the read-only API - WriteTo (write_to),
@@ -52,3 +52,16 @@ Proof.
   intros k p ops. split; [apply H|]. intros ops'. rewrite !H. reflexivity.
 Qed.
 Print Assumptions C11_readonly.
+
+(* That the Go methods behind the read-only API are functions of the packet
+   too - that none of WriteTo, String, dump, WellFormed, Error, the
+   accessors, fill and width stores into the packet, into memory reachable
+   from it, or into a package-level variable, on any path - is decided on
+   the source on every run by the write-set analysis of tools/gosync
+   (effects.go, see Properties/C13.v); no function of the package keeps
+   state between calls in package-level variables, pools or caches. *)
+Theorem C11_api_writes_nothing :
+  g_readonly_effects = [] /\ g_global_effects = [] /\
+  forallb (fun m => existsb (String.eqb m) g_readonly_methods) readonly_api = true.
+Proof. exact (conj sync_readonly_effects (conj sync_no_global_state sync_readonly_methods)). Qed.
+Print Assumptions C11_api_writes_nothing.
